@@ -1,20 +1,22 @@
-"""A3/A4 - structured path enumeration and per-path (SSA by construction) substitution.
+"""A3/A4 - structured path enumeration with control dependence, helper inlining and per-path substitution.
 
-Python has no goto, so the CFG of a function is given by its statement nesting; paths are
-enumerated directly over the nesting (loops taken 0 and 1 times).  On a path every use
-has exactly one reaching definition, so provenance is plain substitution: the environment
-maps a local name or an attribute path rooted at a name ('self.val') to the expression,
-already expressed over the function's inputs, that defines it on this path.
+Python has no goto, so the CFG of a function is given by its statement nesting; paths are enumerated directly over the nesting
+(loops over unknown iterables 0 and 1 times, loops over literal tuples unrolled).  Before enumeration the body is normalised:
+conditional expressions are lifted into if/else statements, so `x = a if c else b` and the equivalent statement form give the same
+paths.  Calls to *helper* functions - repository functions that are not in the pinned function table, i.e. introduced by a later
+extract-method refactoring - are inlined at path level (`t = self._helper(a)`, `self._helper(a)`, `return self._helper(a)`),
+single-return helpers, nested one-expression defs and lambdas are inlined at expression level.
 
+On a path every use has exactly one reaching definition, so provenance is plain substitution: the environment maps a local name
+or an attribute path rooted at a name ('self.val') to the expression, over the function's inputs, that defines it on this path.
 Nothing is executed; expressions are rewritten, never evaluated.
 """
 import ast
 import copy
+import re as _re
 
 from .model import dotted, src, AnalysisError
 
-
-import re as _re
 _TOK = _re.compile(r"[A-Za-z_][A-Za-z_0-9]*(?:\.[A-Za-z_][A-Za-z_0-9]*)*")
 
 
@@ -23,7 +25,7 @@ class Ev:
     __slots__ = ("kind", "stmt", "a", "b")
 
     def __init__(self, kind, stmt, a=None, b=None):
-        self.kind = kind    # assign | aug | expr | guard | return | raise | iter | loop0 | def | except | end | with
+        self.kind = kind    # assign aug expr guard endif return raise iter loop0 loopexit def except end with try bind enter leave
         self.stmt = stmt
         self.a = a
         self.b = b
@@ -36,13 +38,132 @@ class PathCap(Exception):
     pass
 
 
+# --------------------------------------------------------------------------- normalisation
+
+def _first_ifexp(node):
+    """first IfExp inside an expression (breadth first), not below a lambda / comprehension"""
+    stack = [node]
+    while stack:
+        n = stack.pop(0)
+        if isinstance(n, ast.IfExp):
+            return n
+        if isinstance(n, (ast.Lambda, ast.ListComp, ast.SetComp, ast.DictComp, ast.GeneratorExp)):
+            continue
+        stack.extend(ast.iter_child_nodes(n))
+    return None
+
+
+def _rep(node, old, new):
+    if node is old:
+        return new
+    changed = False
+    kwargs = {}
+    for fld, val in ast.iter_fields(node):
+        if isinstance(val, ast.AST):
+            nv = _rep(val, old, new)
+            changed |= nv is not val
+            kwargs[fld] = nv
+        elif isinstance(val, list):
+            nl = [_rep(v, old, new) if isinstance(v, ast.AST) else v for v in val]
+            changed |= any(a is not b for a, b in zip(nl, val))
+            kwargs[fld] = nl
+        else:
+            kwargs[fld] = val
+    if not changed:
+        return node
+    n2 = type(node)(**kwargs)
+    return ast.copy_location(n2, node) if hasattr(node, "lineno") else n2
+
+
+class _DictGet(ast.NodeTransformer):
+    """D[k] if k in D else DEFAULT  ->  D.get(k) / D.get(k, DEFAULT)   (same value for dicts; one spelling for the analyses)"""
+
+    def visit_IfExp(self, n):
+        self.generic_visit(n)
+        t = n.test
+        if isinstance(t, ast.Compare) and len(t.ops) == 1 and isinstance(t.ops[0], ast.In) and isinstance(t.left, ast.Constant) \
+                and isinstance(n.body, ast.Subscript) and isinstance(n.body.slice, ast.Constant) and n.body.slice.value == t.left.value \
+                and dotted(n.body.value) is not None and dotted(n.body.value) == dotted(t.comparators[0]):
+            args = [t.left] if (isinstance(n.orelse, ast.Constant) and n.orelse.value is None) else [t.left, n.orelse]
+            return ast.copy_location(ast.Call(func=ast.Attribute(value=n.body.value, attr="get", ctx=ast.Load()), args=args, keywords=[]), n)
+        return n
+
+    def visit_Call(self, n):
+        self.generic_visit(n)
+        if isinstance(n.func, ast.Attribute) and n.func.attr == "get" and len(n.args) == 2 and isinstance(n.args[1], ast.Constant) and n.args[1].value is None and not n.keywords:
+            return ast.copy_location(ast.Call(func=n.func, args=[n.args[0]], keywords=[]), n)
+        return n
+
+
+def _canon(s):
+    if any(isinstance(x, ast.IfExp) for x in ast.walk(s)) or any(isinstance(x, ast.Call) and isinstance(x.func, ast.Attribute) and x.func.attr == "get" for x in ast.walk(s)):
+        return _DictGet().visit(copy.deepcopy(s))
+    return s
+
+
+def lift_ifexp(stmts, depth=0):
+    """statement list with conditional expressions in simple statements turned into if/else statements"""
+    out = []
+    for s in stmts:
+        if isinstance(s, (ast.Assign, ast.AugAssign, ast.AnnAssign, ast.Expr, ast.Return)) and depth == 0:
+            s = _canon(s)
+        if isinstance(s, (ast.Assign, ast.AugAssign, ast.AnnAssign, ast.Expr, ast.Return)) and depth < 6:
+            val = s.value
+            ie = _first_ifexp(val) if val is not None else None
+            if ie is not None:
+                a = _rep(s, ie, ie.body)
+                b = _rep(s, ie, ie.orelse)
+                node = ast.If(test=ie.test, body=lift_ifexp([a], depth + 1), orelse=lift_ifexp([b], depth + 1))
+                ast.copy_location(node, s)
+                node._lifted = True
+                out.append(node)
+                continue
+            out.append(s)
+        elif isinstance(s, (ast.If, ast.For, ast.While, ast.AsyncFor, ast.Try, ast.With, ast.AsyncWith)):
+            changed = False
+            n = copy.copy(s)
+            for fld in ("body", "orelse", "finalbody"):
+                v = getattr(s, fld, None)
+                if isinstance(v, list):
+                    nv = lift_ifexp(v, depth)
+                    if len(nv) != len(v) or any(a is not b for a, b in zip(nv, v)):
+                        changed = True
+                    setattr(n, fld, nv)
+            if isinstance(s, ast.Try):
+                hs = []
+                for h in s.handlers:
+                    nb = lift_ifexp(h.body, depth)
+                    if len(nb) != len(h.body) or any(a is not b for a, b in zip(nb, h.body)):
+                        changed = True
+                        h2 = copy.copy(h)
+                        h2.body = nb
+                        hs.append(h2)
+                    else:
+                        hs.append(h)
+                n.handlers = hs
+            out.append(n if changed else s)      # unchanged statements keep their identity
+        else:
+            out.append(s)
+    return out
+
+
+_LIFT_CACHE = {}
+
+
+def lifted_body(fnode):
+    k = id(fnode)
+    if k not in _LIFT_CACHE:
+        _LIFT_CACHE[k] = (lift_ifexp(fnode.body), fnode)
+    return _LIFT_CACHE[k][0]
+
+
+# --------------------------------------------------------------------------- guards / facts for pruning
+
 def _guard_key(test):
-    """(key, polarity) with 'not' stripped, for contradiction pruning."""
     pol = True
     while isinstance(test, ast.UnaryOp) and isinstance(test.op, ast.Not):
         test = test.operand
         pol = not pol
-    # 'x is not None' -> ('x is None', False)
     if isinstance(test, ast.Compare) and len(test.ops) == 1:
         op = test.ops[0]
         l, r = test.left, test.comparators[0]
@@ -100,8 +221,7 @@ def _assigned_roots(stmt):
 
 
 def _escapes(stmt):
-    """can control leave this compound statement other than by falling through?
-    (return/raise anywhere inside; break/continue that target an enclosing loop)"""
+    """can control leave this compound statement other than by falling through?"""
     def walk(nodes, in_loop):
         for n in nodes:
             if isinstance(n, (ast.Return, ast.Raise)):
@@ -124,16 +244,67 @@ def _escapes(stmt):
     return walk(getattr(stmt, "body", []), False) or walk(getattr(stmt, "orelse", []), False)
 
 
-def enum_paths(body, cap=20000, prune=True):
-    """All acyclic paths (loops 0/1 times) through a statement list.
+# --------------------------------------------------------------------------- inlining policy
 
-    Returns list of lists of Ev; each path ends with Ev('return'|'raise'|'end').
-    Raises PathCap when more than ``cap`` complete paths exist.
-    """
+class Inliner:
+    """decides which calls are expanded; holds the program for callee lookup"""
+
+    def __init__(self, prog, func, max_depth=3):
+        self.prog = prog
+        self.func = func
+        self.max_depth = max_depth
+        from .pinned import PINNED_FUNCS
+        self.pinned = PINNED_FUNCS
+
+    def callee(self, ctx_func, call):
+        """Func to inline for this call node evaluated inside ctx_func, or None"""
+        if self.prog is None or ctx_func is None or not isinstance(call, ast.Call):
+            return None
+        fn = call.func
+        q = None
+        if isinstance(fn, ast.Name):
+            q = self.prog.resolve_name(ctx_func, fn.id)
+        elif isinstance(fn, ast.Attribute):
+            d = dotted(fn.value)
+            if d == "self" and ctx_func.cls:
+                m = self.prog.method(ctx_func.cls, fn.attr, required=False, module=ctx_func.module)
+                q = m.qualname if m is not None else None
+            elif d == "utils":
+                q = "utils." + fn.attr
+            elif d is not None and ctx_func.cls and d in (ctx_func.cls, "self.__class__"):
+                m = self.prog.method(ctx_func.cls, fn.attr, required=False, module=ctx_func.module)
+                q = m.qualname if m is not None else None
+        if not q or q not in self.prog.funcs:
+            return None
+        if q in self.pinned:
+            return None
+        f = self.prog.funcs[q]
+        if any(isinstance(n, (ast.Yield, ast.YieldFrom)) for n in ast.walk(f.node)):
+            return None
+        if f.node.args.vararg is not None:
+            return None
+        return f
+
+    @staticmethod
+    def simple_expr(f):
+        """body statements when f is `[doc] [x = e]* return e`, else None"""
+        body = [s for s in f.node.body if not (isinstance(s, ast.Expr) and isinstance(s.value, ast.Constant))]
+        if not body or not isinstance(body[-1], ast.Return) or body[-1].value is None:
+            return None
+        for s in body[:-1]:
+            if not (isinstance(s, ast.Assign) and len(s.targets) == 1 and isinstance(s.targets[0], ast.Name)):
+                return None
+        return body
+
+
+# --------------------------------------------------------------------------- enumeration
+
+def enum_paths(body, cap=20000, prune=True, prog=None, func=None, inline=True):
+    """All acyclic paths through a statement list; each ends with Ev('return'|'raise'|'end').
+    With prog/func given, calls to helper functions are expanded in place (path-level inlining)."""
     done = []
-
-    class _Break(Exception):
-        pass
+    inl = Inliner(prog, func) if (prog is not None and func is not None and inline) else None
+    body = lift_ifexp(body)
 
     def consistent(facts, key, pol):
         return facts.get(key, pol) == pol
@@ -143,7 +314,7 @@ def enum_paths(body, cap=20000, prune=True):
             return facts
         out = {}
         for k, v in facts.items():
-            toks = _tokens(k)
+            toks = _TOK.findall(k)
             dead = False
             for r in roots:
                 for t in toks:
@@ -156,21 +327,47 @@ def enum_paths(body, cap=20000, prune=True):
                 out[k] = v
         return out
 
-    def _tokens(key):
-        # dotted identifiers in the key string
-        return _TOK.findall(key)
+    def inline_target(s, ctx):
+        if inl is None:
+            return None
+        if isinstance(s, (ast.Assign, ast.Expr, ast.Return)) and isinstance(s.value, ast.Call):
+            c = s.value
+        else:
+            return None
+        f = inl.callee(ctx[-1], c)
+        if f is None or len(ctx) > inl.max_depth or any(f is g for g in ctx):
+            return None
+        if any(isinstance(a, ast.Starred) for a in c.args):
+            return None
+        if Inliner.simple_expr(f) is not None and not isinstance(s, ast.Expr):
+            return None       # expression-level inlining handles it during substitution
+        return c, f
 
-    # continuation-passing enumeration: run(stmts, i, prefix, facts, conts)
-    # conts: stack of (kind, payload) describing what follows the current block
-    def run(stmts, i, prefix, facts, k):
-        """k: function(prefix, facts, how) called when block falls through (how='fall'),
-        or with how='break'/'continue' for loop control."""
+    def run(stmts, i, prefix, facts, k, ctx):
         if len(done) > cap:
             raise PathCap()
         if i >= len(stmts):
             return k(prefix, facts, "fall")
         s = stmts[i]
-        nxt = lambda p, f, how="fall": (run(stmts, i + 1, p, f, k) if how == "fall" else k(p, f, how))
+
+        def nxt(p, f, how="fall"):
+            return run(stmts, i + 1, p, f, k, ctx) if how == "fall" else k(p, f, how)
+        it = inline_target(s, ctx)
+        if it is not None:
+            call, callee = it
+            cbody = lifted_body(callee.node)
+
+            def attr_facts(f):
+                return {k_: v for k_, v in f.items() if all(t.startswith("self.") for t in _TOK.findall(k_) if not t[0].isupper() and t not in ("is", "None", "not", "in", "and", "or", "True", "False"))}
+
+            def callee_k(p, f, how):
+                if how in ("fall", "return"):
+                    p2 = p + [Ev("leave", s, callee)]
+                    if isinstance(s, ast.Return):
+                        return k(p2 + [Ev("return_inlined", s)], {}, "return")
+                    return run(stmts, i + 1, p2, kill(attr_facts(f), _assigned_roots(s)), k, ctx)
+                return k(p, f, how)
+            return run(cbody, 0, prefix + [Ev("enter", s, call, callee)], attr_facts(facts), callee_k, ctx + [callee])
         if isinstance(s, (ast.Assign, ast.AnnAssign)):
             if isinstance(s, ast.AnnAssign) and s.value is None:
                 return nxt(prefix, facts)
@@ -180,11 +377,28 @@ def enum_paths(body, cap=20000, prune=True):
         if isinstance(s, ast.Expr):
             return nxt(prefix + [Ev("expr", s)], facts)
         if isinstance(s, ast.Return):
-            done.append(prefix + [Ev("return", s)])
-            return
+            return k(prefix + [Ev("return", s)], facts, "return")
         if isinstance(s, ast.Raise):
-            done.append(prefix + [Ev("raise", s)])
-            return
+            return k(prefix + [Ev("raise", s)], facts, "raise")
+        if isinstance(s, ast.If) and inl is not None and not getattr(s, "_hoisted", False):
+            t = s.test
+            neg = 0
+            while isinstance(t, ast.UnaryOp) and isinstance(t.op, ast.Not):
+                t = t.operand
+                neg += 1
+            if isinstance(t, ast.Call):
+                f = inl.callee(ctx[-1], t)
+                if f is not None and Inliner.simple_expr(f) is None and len(ctx) <= inl.max_depth and not any(f is g for g in ctx):
+                    nm = "$t%d_%d" % (getattr(s, "lineno", 0), len(ctx))
+                    asg = ast.copy_location(ast.Assign(targets=[ast.Name(id=nm, ctx=ast.Store())], value=t), s)
+                    tst = ast.Name(id=nm, ctx=ast.Load())
+                    for _ in range(neg):
+                        tst = ast.UnaryOp(op=ast.Not(), operand=tst)
+                    s2 = copy.copy(s)
+                    s2.test = tst
+                    s2._hoisted = True
+                    s2._orig = s
+                    return run([asg, s2] + list(stmts[i + 1:]), 0, prefix, facts, k, ctx)
         if isinstance(s, ast.If):
             key, pol = _guard_key(s.test)
             esc = _escapes(s)
@@ -199,41 +413,54 @@ def enum_paths(body, cap=20000, prune=True):
                     continue
                 f2 = dict(facts)
                 f2[key] = p
-                run(branch, 0, prefix + [Ev("guard", s, s.test, bpol)], f2, endif)
+                run(branch, 0, prefix + [Ev("guard", s, s.test, bpol)], f2, endif, ctx)
             return
         if isinstance(s, ast.Assert):
             return nxt(prefix + [Ev("guard", s, s.test, True)], facts)
         if isinstance(s, (ast.For, ast.AsyncFor)):
-            # zero iterations
-            def after(p, f, how="fall"):
-                return nxt(p, f)
-            run(s.orelse, 0, prefix + [Ev("loop0", s)], facts, nxt)
-            # one iteration
+            esc = _escapes(s)
+            lit = s.iter.elts if isinstance(s.iter, (ast.Tuple, ast.List)) and len(s.iter.elts) <= 8 and not s.orelse else None
+            if lit is not None:
+                def unroll(j, p, f):
+                    if j >= len(lit):
+                        return nxt(p + [Ev("endif", s, esc)], f)
+
+                    def body_k(p2, f2, how):
+                        if how in ("fall", "continue"):
+                            return unroll(j + 1, p2, f2)
+                        if how == "break":
+                            return nxt(p2 + [Ev("endif", s, esc)], f2)
+                        return k(p2, f2, how)
+                    return run(s.body, 0, p + [Ev("bind", s, s.target, lit[j])], kill(f, _assigned_roots(s)), body_k, ctx)
+                return unroll(0, prefix, facts)
+            run(s.orelse, 0, prefix + [Ev("loop0", s)], facts, nxt, ctx)
+
             def body_k(p, f, how):
                 if how in ("fall", "continue"):
-                    return run(s.orelse, 0, p + [Ev("endif", s, _escapes(s))], f, nxt)
+                    return run(s.orelse, 0, p + [Ev("endif", s, esc)], f, nxt, ctx)
                 if how == "break":
-                    return nxt(p + [Ev("endif", s, _escapes(s))], f)
+                    return nxt(p + [Ev("endif", s, esc)], f)
                 return k(p, f, how)
-            run(s.body, 0, prefix + [Ev("iter", s)], kill(facts, _assigned_roots(s)), body_k)
+            run(s.body, 0, prefix + [Ev("iter", s)], kill(facts, _assigned_roots(s)), body_k, ctx)
             return
         if isinstance(s, ast.While):
             key, pol = _guard_key(s.test)
+            esc = _escapes(s)
             if not prune or consistent(facts, key, not pol):
                 f0 = dict(facts)
                 f0[key] = not pol
-                run(s.orelse, 0, prefix + [Ev("guard", s, s.test, False), Ev("endif", s, _escapes(s))], f0, nxt)
+                run(s.orelse, 0, prefix + [Ev("guard", s, s.test, False), Ev("endif", s, esc)], f0, nxt, ctx)
             if not prune or consistent(facts, key, pol):
                 f1 = dict(facts)
                 f1[key] = pol
 
                 def wbody_k(p, f, how):
                     if how in ("fall", "continue"):
-                        return nxt(p + [Ev("loopexit", s), Ev("endif", s, _escapes(s))], {})
+                        return nxt(p + [Ev("loopexit", s), Ev("endif", s, esc)], {})
                     if how == "break":
-                        return nxt(p + [Ev("endif", s, _escapes(s))], f)
+                        return nxt(p + [Ev("endif", s, esc)], f)
                     return k(p, f, how)
-                run(s.body, 0, prefix + [Ev("guard", s, s.test, True)], f1, wbody_k)
+                run(s.body, 0, prefix + [Ev("guard", s, s.test, True)], f1, wbody_k, ctx)
             return
         if isinstance(s, ast.Break):
             return k(prefix, facts, "break")
@@ -243,32 +470,35 @@ def enum_paths(body, cap=20000, prune=True):
             def fin(p, f, how="fall"):
                 if how != "fall":
                     return k(p, f, how)
-                return run(s.finalbody, 0, p, f, nxt)
+                return run(s.finalbody, 0, p, f, nxt, ctx)
 
             def after_body(p, f, how="fall"):
                 if how != "fall":
                     return k(p, f, how)
-                return run(s.orelse, 0, p, f, fin)
-            run(s.body, 0, prefix + [Ev("try", s)], facts, after_body)
+                return run(s.orelse, 0, p, f, fin, ctx)
+            run(s.body, 0, prefix + [Ev("try", s)], facts, after_body, ctx)
             for h in s.handlers:
-                run(h.body, 0, prefix + [Ev("except", s, h)], {}, fin)
+                run(h.body, 0, prefix + [Ev("except", s, h)], {}, fin, ctx)
             return
         if isinstance(s, (ast.With, ast.AsyncWith)):
-            return run(s.body, 0, prefix + [Ev("with", s)], facts, nxt)
+            return run(s.body, 0, prefix + [Ev("with", s)], facts, nxt, ctx)
         if isinstance(s, (ast.FunctionDef, ast.AsyncFunctionDef, ast.ClassDef)):
             return nxt(prefix + [Ev("def", s)], kill(facts, {s.name}))
         if isinstance(s, (ast.Import, ast.ImportFrom, ast.Pass, ast.Global, ast.Nonlocal, ast.Delete)):
             return nxt(prefix, facts)
         if hasattr(ast, "Match") and isinstance(s, ast.Match):
             for c in s.cases:
-                run(c.body, 0, prefix + [Ev("guard", s, s.subject, True)], {}, nxt)
+                run(c.body, 0, prefix + [Ev("guard", s, s.subject, True)], {}, nxt, ctx)
             return
         raise AnalysisError("statement kind outside the path vocabulary: %s at line %s" % (type(s).__name__, getattr(s, "lineno", "?")))
 
     def top_k(prefix, facts, how):
-        done.append(prefix + [Ev("end", None)])
+        if how in ("return", "raise"):
+            done.append(prefix)
+        else:
+            done.append(prefix + [Ev("end", None)])
 
-    run(body, 0, [], {}, top_k)
+    run(body, 0, [], {}, top_k, [func])
     if len(done) > cap:
         raise PathCap()
     return done
@@ -292,15 +522,15 @@ def _bound_names(node):
     return out
 
 
-def subst(node, env):
-    """Functional substitution: returns ``node`` itself when nothing below it changes, otherwise a
-    shallow rebuild of the spine. Environment values are shared, never copied or mutated."""
-    if not env:
+def subst(node, env, hook=None):
+    """Functional substitution: returns ``node`` itself when nothing below it changes, otherwise a shallow rebuild of the spine.
+    Lambda applications are beta-reduced; ``hook(new_call, raw_call) -> expr | None`` may replace calls (expression inlining)."""
+    if not env and hook is None:
         return node
-    return _sub(node, env)
+    return _sub(node, env, hook)
 
 
-def _sub(node, env):
+def _sub(node, env, hook):
     if isinstance(node, ast.Name):
         if isinstance(node.ctx, ast.Load) and node.id in env:
             return env[node.id]
@@ -314,8 +544,6 @@ def _sub(node, env):
         bound = _bound_names(node)
         if bound:
             env = {k: v for k, v in env.items() if k.split(".")[0] not in bound}
-            if not env:
-                return node
     if isinstance(node, ast.Constant):
         return node
     changed = None
@@ -323,7 +551,7 @@ def _sub(node, env):
         if isinstance(old, ast.AST):
             if isinstance(old, (ast.expr_context, ast.operator, ast.unaryop, ast.cmpop, ast.boolop)):
                 continue
-            new = _sub(old, env)
+            new = _sub(old, env, hook)
             if new is not old:
                 if changed is None:
                     changed = {}
@@ -332,7 +560,7 @@ def _sub(node, env):
             newl = None
             for i, it in enumerate(old):
                 if isinstance(it, ast.AST):
-                    ni = _sub(it, env)
+                    ni = _sub(it, env, hook)
                     if ni is not it:
                         if newl is None:
                             newl = list(old)
@@ -342,10 +570,23 @@ def _sub(node, env):
                     changed = {}
                 changed[fld] = newl
     if changed is None:
-        return node
-    kwargs = {f: changed.get(f, v) for f, v in ast.iter_fields(node)}
-    new = type(node)(**kwargs)
-    return ast.copy_location(new, node) if hasattr(node, "lineno") else new
+        new = node
+    else:
+        kwargs = {f: changed.get(f, v) for f, v in ast.iter_fields(node)}
+        new = type(node)(**kwargs)
+        if hasattr(node, "lineno"):
+            ast.copy_location(new, node)
+    if isinstance(new, ast.Call):
+        fn = new.func
+        if isinstance(fn, ast.Lambda) and not new.keywords and len(fn.args.args) == len(new.args) \
+                and not fn.args.vararg and not fn.args.kwarg and not fn.args.defaults and not any(isinstance(a, ast.Starred) for a in new.args):
+            benv = {p.arg: a for p, a in zip(fn.args.args, new.args)}
+            return _sub(fn.body, benv, None)
+        if hook is not None:
+            r = hook(new, node)
+            if r is not None:
+                return r
+    return new
 
 
 def _elem(call_like, i):
@@ -353,7 +594,7 @@ def _elem(call_like, i):
 
 
 class Store:
-    __slots__ = ("target", "path", "sub", "value", "raw_value", "guards", "stmt", "aug", "prior")
+    __slots__ = ("target", "path", "sub", "value", "raw_value", "guards", "stmt", "aug", "prior", "depth")
 
     def __init__(self, target, path, sub, value, raw_value, guards, stmt, aug=None):
         self.target = target      # original target node
@@ -365,32 +606,36 @@ class Store:
         self.stmt = stmt
         self.aug = aug
         self.prior = []
+        self.depth = 0            # inlining depth (0 = the analysed function itself)
 
 
 class CallEv:
-    __slots__ = ("call", "raw", "guards", "stmt", "idx", "prior")
+    __slots__ = ("call", "raw", "guards", "stmt", "idx", "prior", "depth", "ctx")
 
     def __init__(self, call, raw, guards, stmt, idx):
         self.call = call      # substituted call expr
         self.raw = raw        # original call node
         self.guards = guards
         self.stmt = stmt
-        self.idx = idx        # position in path's event order
+        self.idx = idx
+        self.prior = []
+        self.depth = 0
+        self.ctx = None       # Func in whose body the call is written (for resolution)
 
 
 class PathFacts:
     """Result of walking one path with substitution."""
 
     def __init__(self):
-        self.stores = []     # Store, in order
-        self.calls = []      # CallEv, in order
-        self.ret = None      # substituted return expr (or None)
+        self.stores = []
+        self.calls = []
+        self.ret = None
         self.ret_stmt = None
         self.end = None      # 'return' | 'raise' | 'end'
-        self.guards = []     # all guards on path (substituted, polarity, raw)
+        self.guards = []
         self.env = {}
-        self.order = []      # interleaved ('store'|'call', obj)
-        self.zero_loops = 0  # loops taken zero times on this path
+        self.order = []
+        self.zero_loops = 0
 
 
 def _calls_in_order(node):
@@ -407,50 +652,124 @@ def _calls_in_order(node):
     return out
 
 
-def walk_path(path, params=(), init_env=None, kill_attr_on_call=None):
-    """Substitute along one path. ``kill_attr_on_call(call_node) -> iterable of dotted attr paths``
-    lets a rule say which attribute definitions a call invalidates (mod/ref summary)."""
-    env = dict(init_env or {})
+class _Scope:
+    def __init__(self, func, env, target_stmt, parent):
+        self.func = func
+        self.env = env
+        self.target_stmt = target_stmt
+        self.parent = parent
+        self.ret = None
+
+
+def walk_path(path, params=(), init_env=None, kill_attr_on_call=None, prog=None, func=None):
+    """Substitute along one path (with scopes for inlined helpers)."""
     pf = PathFacts()
-    guards = []      # enclosing (open) guards
-    closed = []      # guards of completed compound statements that can escape
-    n = 0
+    guards = []
+    closed = []
+    counter = [0]
+    heap = {}                                  # attribute paths rooted at 'self' (shared by inlined methods called on self)
+    st_ = {"scope": _Scope(func, dict(init_env or {}), None, None)}
+    inl = Inliner(prog, func) if (prog is not None and func is not None) else None
+    pending_ret = [None]
+
+    def cur_env():
+        scope = st_["scope"]
+        chain = [scope]
+        s = scope
+        # a nested def sees the locals of the function that defines it
+        while s.parent is not None and s.func is not None and s.func.parent is not None and s.parent.func is s.func.parent:
+            s = s.parent
+            chain.append(s)
+        if len(chain) == 1 and not heap:
+            return scope.env
+        e = dict(heap)
+        for s in reversed(chain):
+            e.update(s.env)
+        return e
+
+    def hook(newcall, rawcall):
+        scope = st_["scope"]
+        if inl is None or scope.func is None or not isinstance(rawcall, ast.Call):
+            return None
+        f = inl.callee(scope.func, rawcall)
+        if f is None:
+            return None
+        body = Inliner.simple_expr(f)
+        if body is None:
+            return None
+        ps = list(f.params)
+        if f.cls and ps and ps[0] == "self" and not any("staticmethod" in d for d in f.decorators):
+            ps = ps[1:]
+        if any(isinstance(a, ast.Starred) for a in newcall.args) or any(k.arg is None for k in newcall.keywords):
+            return None
+        benv = {}
+        dfl = f.defaults()
+        for p_, a in zip(ps, newcall.args):
+            benv[p_] = a
+        for k_ in newcall.keywords:
+            benv[k_.arg] = k_.value
+        for p_ in ps:
+            if p_ not in benv:
+                if p_ in dfl:
+                    benv[p_] = dfl[p_]
+                else:
+                    return None
+        for s in body[:-1]:
+            benv[s.targets[0].id] = _sub(s.value, benv, None)
+        return _sub(body[-1].value, benv, None)
+
+    def S(expr):
+        return subst(expr, cur_env(), hook)
+
+    def _depth():
+        d, s = 0, st_["scope"]
+        while s.parent is not None:
+            d += 1
+            s = s.parent
+        return d
 
     def record_calls(raw_expr, stmt):
-        nonlocal n
         for c in _calls_in_order(raw_expr):
-            ce = CallEv(subst(c, env), c, list(guards), stmt, n)
+            ce = CallEv(S(c), c, list(guards), stmt, counter[0])
             ce.prior = list(closed)
-            n += 1
+            ce.depth = _depth()
+            ce.ctx = st_["scope"].func
+            counter[0] += 1
             pf.calls.append(ce)
             pf.order.append(("call", ce))
             if kill_attr_on_call is not None:
                 for d in kill_attr_on_call(c) or ():
-                    env.pop(d, None)
+                    heap.pop(d, None)
+                    st_["scope"].env.pop(d, None)
+
+    def setvar(d, value):
+        scope = st_["scope"]
+        if d == "self" or d.startswith("self."):
+            if "self" in scope.env and d.startswith("self."):
+                # helper called on another receiver: keep in its scope
+                scope.env[d] = value
+                return
+            heap[d] = value
+            for k in [k for k in heap if k.startswith(d + ".")]:
+                del heap[k]
+        else:
+            scope.env[d] = value
+            for k in [k for k in scope.env if k.startswith(d + ".")]:
+                del scope.env[k]
 
     def bind(target, value_sub, raw_value, stmt, aug=None):
-        nonlocal n
         if isinstance(target, ast.Name):
-            env[target.id] = value_sub
-            # a rebinding of a root invalidates attribute paths below it
-            for k in [k for k in env if k.startswith(target.id + ".")]:
-                del env[k]
+            setvar(target.id, value_sub)
             st = Store(target, target.id, None, value_sub, raw_value, list(guards), stmt, aug)
         elif isinstance(target, ast.Attribute):
             d = dotted(target)
             if d is None:
-                # attribute of a complex expression: record with substituted base text
-                d = src(subst(target, env))
-            else:
-                # express the base through env (y.val where y -> expr) only for reporting
-                pass
-            env[d] = value_sub
-            for k in [k for k in env if k.startswith(d + ".")]:
-                del env[k]
+                d = src(S(target))
+            setvar(d, value_sub)
             st = Store(target, d, None, value_sub, raw_value, list(guards), stmt, aug)
         elif isinstance(target, ast.Subscript):
-            d = dotted(target.value) or src(subst(target.value, env))
-            st = Store(target, d, subst(target.slice, env), value_sub, raw_value, list(guards), stmt, aug)
+            d = dotted(target.value) or src(S(target.value))
+            st = Store(target, d, S(target.slice), value_sub, raw_value, list(guards), stmt, aug)
         elif isinstance(target, (ast.Tuple, ast.List)):
             for i, t in enumerate(target.elts):
                 if isinstance(t, ast.Starred):
@@ -463,87 +782,151 @@ def walk_path(path, params=(), init_env=None, kill_attr_on_call=None):
         else:
             return
         st.prior = list(closed)
-        n += 1
+        st.depth = _depth()
+        counter[0] += 1
         pf.stores.append(st)
         pf.order.append(("store", st))
 
     for ev in path:
         s = ev.stmt
-        if ev.kind == "assign":
+        k = ev.kind
+        scope = st_["scope"]
+        if k == "assign":
             value = s.value
             record_calls(value, s)
-            v = subst(value, env)
+            v = S(value)
             targets = s.targets if isinstance(s, ast.Assign) else [s.target]
             for t in targets:
                 if isinstance(t, ast.Subscript):
                     record_calls(t, s)
                 bind(t, v, value, s)
-        elif ev.kind == "aug":
+        elif k == "aug":
             record_calls(s.value, s)
-            cur = subst(_load(s.target), env)
-            v = ast.BinOp(left=cur, op=s.op, right=subst(s.value, env))
+            cur = S(_load(s.target))
+            v = ast.BinOp(left=cur, op=s.op, right=S(s.value))
             bind(s.target, v, s.value, s, aug=s.op)
-        elif ev.kind == "expr":
+        elif k == "expr":
             record_calls(s.value, s)
-            # L.append(v) on a local list literal: model as L = L + [v]
             c = s.value
-            if isinstance(c, ast.Call) and isinstance(c.func, ast.Attribute) and c.func.attr == "append" and isinstance(c.func.value, ast.Name) \
-                    and len(c.args) == 1 and isinstance(env.get(c.func.value.id), ast.List):
-                old = env[c.func.value.id]
-                env[c.func.value.id] = ast.List(elts=list(old.elts) + [subst(c.args[0], env)], ctx=ast.Load())
-        elif ev.kind == "guard":
+            if isinstance(c, ast.Call) and isinstance(c.func, ast.Attribute) and isinstance(c.func.value, ast.Name):
+                nm = c.func.value.id
+                e0 = cur_env().get(nm)
+                if c.func.attr == "append" and len(c.args) == 1 and isinstance(e0, ast.List):
+                    setvar(nm, ast.List(elts=list(e0.elts) + [S(c.args[0])], ctx=ast.Load()))
+                elif c.func.attr == "update" and not c.args and c.keywords and all(k_.arg for k_ in c.keywords):
+                    for k_ in c.keywords:      # d.update(a=.., b=..) == d['a'] = ..; d['b'] = ..
+                        tgt = ast.Subscript(value=ast.Name(id=nm, ctx=ast.Load()), slice=ast.Constant(value=k_.arg), ctx=ast.Store())
+                        bind(tgt, S(k_.value), k_.value, s)
+        elif k == "guard":
             record_calls(ev.a, s)
-            g = (subst(ev.a, env), ev.b, ev.a, s)
+            g = (S(ev.a), ev.b, ev.a, s)
             guards.append(g)
             pf.guards.append(g)
             if isinstance(s, ast.While) and not ev.b:
                 pf.zero_loops += 1
-        elif ev.kind == "endif":
-            # leaving the compound statement: its guard no longer encloses what follows; when some
-            # branch of it can escape (return/raise/break) it is remembered as a *prior* guard
+        elif k == "endif":
             if ev.a:
                 closed.extend(g for g in guards if g[3] is s)
             guards[:] = [g for g in guards if g[3] is not s]
-        elif ev.kind == "iter":
+        elif k == "iter":
             record_calls(s.iter, s)
-            it = ast.Call(func=ast.Name(id="$elem", ctx=ast.Load()), args=[subst(s.iter, env)], keywords=[])
+            it = ast.Call(func=ast.Name(id="$elem", ctx=ast.Load()), args=[S(s.iter)], keywords=[])
             bind(s.target, it, s.iter, s)
-            g = (ast.Call(func=ast.Name(id="$nonempty", ctx=ast.Load()), args=[subst(s.iter, env)], keywords=[]), True, s.iter, s)
+            g = (ast.Call(func=ast.Name(id="$nonempty", ctx=ast.Load()), args=[S(s.iter)], keywords=[]), True, s.iter, s)
             guards.append(g)
             pf.guards.append(g)
-        elif ev.kind == "loop0":
+        elif k == "bind":
+            bind(ev.a, S(ev.b), ev.b, s)
+        elif k == "loop0":
             record_calls(s.iter, s)
             pf.zero_loops += 1
-        elif ev.kind == "loopexit":
-            # after a while-body: values assigned in the body are loop-carried; forget them
+        elif k == "loopexit":
             for r in _assigned_in(s.body):
-                env[r] = ast.Call(func=ast.Name(id="$loop", ctx=ast.Load()), args=[ast.Constant(value=r)], keywords=[])
-        elif ev.kind == "def":
-            env.pop(s.name, None)
-        elif ev.kind == "with":
+                setvar(r, ast.Call(func=ast.Name(id="$loop", ctx=ast.Load()), args=[ast.Constant(value=r)], keywords=[]))
+        elif k == "def":
+            scope.env.pop(s.name, None)
+        elif k == "with":
             for it in s.items:
                 record_calls(it.context_expr, s)
                 if it.optional_vars is not None:
-                    bind(it.optional_vars, subst(it.context_expr, env), it.context_expr, s)
-        elif ev.kind == "except":
+                    bind(it.optional_vars, S(it.context_expr), it.context_expr, s)
+        elif k == "except":
             h = ev.a
             if h.name:
-                env[h.name] = ast.Name(id="$exc", ctx=ast.Load())
+                scope.env[h.name] = ast.Name(id="$exc", ctx=ast.Load())
             g = (ast.Name(id="$exception", ctx=ast.Load()), True, None, s)
             guards.append(g)
             pf.guards.append(g)
-        elif ev.kind == "return":
-            pf.end = "return"
-            pf.ret_stmt = s
-            if s.value is not None:
-                record_calls(s.value, s)
-                pf.ret = subst(s.value, env)
-        elif ev.kind == "raise":
+        elif k == "enter":
+            call, callee = ev.a, ev.b
+            for a in list(call.args) + [k_.value for k_ in call.keywords]:
+                record_calls(a, s)
+            args = [S(a) for a in call.args]
+            kws = {k_.arg: S(k_.value) for k_ in call.keywords if k_.arg}
+            star = [S(k_.value) for k_ in call.keywords if k_.arg is None]
+            ps = list(callee.params)
+            is_method = bool(callee.cls) and ps and ps[0] == "self" and not any("staticmethod" in d for d in callee.decorators)
+            if is_method:
+                ps = ps[1:]
+            env2 = {}
+            dfl = callee.defaults()
+            for p_, a in zip(ps, args):
+                env2[p_] = a
+            for n_, v_ in kws.items():
+                if n_ in ps:
+                    env2[n_] = v_
+            for p_ in ps:
+                if p_ not in env2:
+                    env2[p_] = dfl[p_] if p_ in dfl else ast.Name(id="$arg_%s" % p_, ctx=ast.Load())
+            if callee.kwarg:
+                extra = {n_: v_ for n_, v_ in kws.items() if n_ not in ps}
+                env2[callee.kwarg] = star[0] if star and not extra else ast.Dict(keys=[ast.Constant(value=n_) for n_ in extra], values=list(extra.values()))
+            if is_method and isinstance(call.func, ast.Attribute) and dotted(call.func.value) != "self":
+                env2["self"] = S(call.func.value)
+            st_["scope"] = _Scope(callee, env2, s, scope)
+        elif k == "leave":
+            callee_scope = scope
+            st_["scope"] = scope.parent
+            rv = callee_scope.ret if callee_scope.ret is not None else ast.Constant(value=None)
+            if isinstance(s, ast.Assign):
+                for t in s.targets:
+                    bind(t, rv, s.value, s)
+            elif isinstance(s, ast.Return):
+                pending_ret[0] = rv
+        elif k == "return_inlined":
+            if scope.parent is not None:
+                scope.ret = pending_ret[0]
+            else:
+                pf.end = "return"
+                pf.ret_stmt = s
+                pf.ret = pending_ret[0]
+        elif k == "return":
+            if scope.parent is not None:
+                if s.value is not None:
+                    record_calls(s.value, s)
+                    scope.ret = S(s.value)
+                else:
+                    scope.ret = ast.Constant(value=None)
+            else:
+                pf.end = "return"
+                pf.ret_stmt = s
+                if s.value is not None:
+                    record_calls(s.value, s)
+                    pf.ret = S(s.value)
+        elif k == "raise":
             pf.end = "raise"
             pf.ret_stmt = s
-        elif ev.kind == "end":
-            pf.end = "end"
-    pf.env = env
+        elif k == "end":
+            if scope.parent is None:
+                pf.end = "end"
+    top = st_["scope"]
+    while top.parent is not None:
+        top = top.parent
+    e = dict(heap)
+    e.update(top.env)
+    pf.env = e
+    if pf.end is None:
+        pf.end = "end"
     return pf
 
 
@@ -568,11 +951,7 @@ def _assigned_in(stmts):
 
 def outcomes(stmts, pred, hit=False):
     """Structural dataflow of one boolean ("a statement satisfying ``pred`` has executed").
-
-    Returns the set of (kind, hit) with kind in fall/return/raise/break/continue that the
-    statement list can end in when entered with ``hit``.  Loops may run zero times; an
-    exception handler is entered with the hit state of the try entry (conservative).
-    Used for functions whose path count is above the enumeration cap (``resize``)."""
+    Returns the set of (kind, hit) with kind in fall/return/raise/break/continue."""
     cur = {hit}
     res = set()
     for s in stmts:
@@ -630,5 +1009,4 @@ def outcomes(stmts, pred, hit=False):
 
 
 def always_before_exit(stmts, pred):
-    """every normal exit (fall off the end or return) has executed a ``pred`` statement"""
     return all(h for k, h in outcomes(stmts, pred) if k in ("fall", "return"))
